@@ -450,10 +450,17 @@ fn write_events_on(r: &RunResult, path: &str) -> Vec<String> {
 /// unprivileged compiler (the statement promises nothing then, except that the failure is reported).
 fn create_blocked(before: &Tree, path: &str) -> bool {
     if let Some(n) = before.get(path) {
-        return match n.kind {
-            NodeKind::File => n.mode & 0o200 == 0,
-            _ => true, // a directory (or something else) is in the way
-        };
+        match n.kind {
+            NodeKind::File => {
+                if n.mode & 0o200 == 0 {
+                    return true;
+                }
+                // an existing writable file in a directory that is not writable: overwriting in place works, writing
+                // through a temporary file and renaming does not. Both implementations are right; fall through to
+                // the directory checks so that a reported failure is accepted.
+            }
+            _ => return true, // a directory (or something else) is in the way
+        }
     }
     // walk up: every ancestor must be an existing directory; the immediate parent must be writable + searchable
     let mut cur = path.to_owned();
@@ -725,7 +732,9 @@ pub fn judge(s: &Scenario, r: &RunResult) -> Judged {
         }
         let Some(li) = listing_of[i] else { continue };
         let want_args = &meta.generators[li].args;
-        if h.stdin_error.is_none() {
+        // A stdin that was still open when the compiler exited (an abandoned child, a detached feeder thread) may
+        // hold any prefix of the request; a stdin the compiler closed must hold all of it.
+        if h.stdin_error.is_none() && !h.stdin_open_at_exit {
             match parse_request(&h.stdin_accepted) {
                 Err(e) => vio.push(v("request-not-decodable", format!("the {} bytes sent to '{}' do not decode as a request: {e}", h.stdin_accepted.len(), h.program))),
                 Ok(req) => {
@@ -752,7 +761,7 @@ pub fn judge(s: &Scenario, r: &RunResult) -> Judged {
         }
         // a generator whose stdin broke received a prefix of what it should have received
         for (i, h) in hist.iter().enumerate() {
-            if h.spawn_errno.is_none() && h.stdin_known && h.stdin_error.is_some() {
+            if h.spawn_errno.is_none() && h.stdin_known && (h.stdin_error.is_some() || h.stdin_open_at_exit) {
                 if let Some(li) = listing_of[i] {
                     let mut full = first.clone();
                     full.extend(encode_args(&meta.generators[li].args));
